@@ -158,6 +158,44 @@ func TestC11Race(t *testing.T) {
 		cl.Destroy()
 		fmt.Printf("C11-STATS shared-client pairs=%d mismatched=%d requests=%d\n", got, bad, len(sim.log))
 	})
+	// S3: a TGT that is nearly used up when it is issued (authenticated 4 minutes ago, 30 s left): the first
+	// service-ticket requests, from two goroutines, have to refresh the session themselves (by renewal, and
+	// with a non-renewable TGT by a new login) before the background goroutine does
+	for _, renewable := range []bool{true, false} {
+		name := fmt.Sprintf("used-up-tgt/renewable=%v", renewable)
+		c11Watchdog(name, 30*time.Second, func() {
+			pol := simPolicy{maxLife: 30 * time.Second, backdate: 4 * time.Minute, sessionEt: 18}
+			extra := " ticket_lifetime = 24h\n"
+			if renewable {
+				pol.maxRenew = time.Hour
+				extra += " renew_lifetime = 72h\n"
+			}
+			sim := newKDCSim(pol, 24*time.Hour, NewRNG(5))
+			defer sim.close()
+			cfg, err := config.NewFromString(sim.conf(extra))
+			if err != nil {
+				t.Fatal(err)
+			}
+			cl := client.NewWithPassword(c09User, "TEST.GOKRB5", clientPassword, cfg, client.DisablePAFXFAST(true))
+			if err := cl.Login(); err != nil {
+				fmt.Printf("C11-NOTE login failed: %v\n", err)
+			}
+			var wg sync.WaitGroup
+			for g := 0; g < 2; g++ {
+				wg.Add(1)
+				go func(g int) {
+					defer wg.Done()
+					for i := 0; i < 3; i++ {
+						if _, _, err := cl.GetServiceTicket(spns[(g+i)%3]); err != nil {
+							fmt.Printf("C11-NOTE %s: %v\n", name, err)
+						}
+					}
+				}(g)
+			}
+			wg.Wait()
+			cl.Destroy()
+		})
+	}
 	// S2: one configuration shared by goroutines resolving servers and realms, and by two clients
 	c11Watchdog("shared-config", 60*time.Second, func() {
 		sim := newKDCSim(simPolicy{maxLife: time.Hour, sessionEt: 18}, 24*time.Hour, rng)
